@@ -150,6 +150,10 @@ def body_problems(mon: Monitor) -> list[tuple[str, str]]:
                     runs = [t["seq"] for t in ts_ if t["status"] == "RUNNING" and t["by"] == o["runner"] and t["seq"] < o["seq"]]
                     start = runs[-1] if runs else o["seq"]
                     between = [t for t in ts_ if start < t["seq"] < e["seq"] and t["status"] in ("KILLED", "PENDING_RECOVERY", "RUNNING_RECOVERY")]
+                    # ... or the entering execution is itself the doomed one (killed after its RUNNING write, before it got into the body)
+                    runs_e = [t["seq"] for t in ts_ if t["status"] == "RUNNING" and t["by"] == e["runner"] and t["seq"] < e["seq"]]
+                    if runs_e and not between:
+                        between = [t for t in ts_ if runs_e[-1] < t["seq"] < e["seq"] and t["status"] in ("KILLED", "PENDING_RECOVERY", "RUNNING_RECOVERY")]
                     if not between:
                         problems.append(("body-overlap", f"{inv}: body entered by {e['runner']} while still executing under {o['runner']} without kill/recovery in between"))
                 open_enters.append(e)
